@@ -17,4 +17,15 @@ PROPS = {
         "assumptions": ["theorems hold for every structurally well-formed lookup table; that the table built with f64 arithmetic equals the one built exactly is checked at run time by the driver, not proved",
                         "accuracy in [0,1] and max_den <= 64 (the documented preconditions; callers are checked under C03/C16)"],
     },
+    "C13": {
+        "gen": [CONSTS, {"script": "gen_stdmeta.py"}],
+        "trusted_base": COMMON_TB + [FLOAT_TB,
+            "translators/gen_stdmeta.py (scrapes the compact-format separators and hour factor, the hard-coded time units, the minute lookup names and the std key tables from src/metadata.rs)",
+            "Basic/Decimal.lean: decimal text -> nearest f64 (used by the f64 instance for number literals; tied to str::parse::<f64> by the correspondence ops)",
+            "modelled, not verified: serde_yaml (the harness hands the model the parsed value: as_u64 and to_string of numbers are inputs), char::is_alphabetic (input: the alphabetic characters of the text), the converter (input: the time units, their ratios and the name index as the real Converter reports them), str routines split/trim/split_whitespace/parse re-implemented in the model and tied by the ops sm_words, sm_trim, sm_u32, sm_f64syn"],
+        "assumptions": ["time theorems are over exact rationals and hold for every converter whose time units have a non-zero ratio",
+                        "char::is_alphabetic(':') is false",
+                        "std saturates decimal exponents beyond 65536 digits of magnitude; the model does not: irrelevant for texts shorter than 65000 characters",
+                        "the oracle stays silent where the documentation does: blank time texts, trimming of quoted list entries in tags, signs/exponents in numbers of minutes, text glued to a servings number"],
+    },
 }
